@@ -1,12 +1,53 @@
 import HcipyVerif.Model.Proto
+import HcipyVerif.Model.FftGrid
+import HcipyVerif.Model.FftIndex
 
-/-! Line-protocol front end of the C02 model (stub: not built yet). -/
+/-!
+Line-protocol front end of the C02 model.
+
+* `adj std|emu N M Mo δ z dT s w j k` — adjointness of the modelled FFT pipeline on impulses:
+  `F_kj` = forward of the unit impulse at `j`, sample `k`; `B_jk` = backward of the unit impulse at
+  `k`, sample `j`; answers whether `F_kj·(Δ/2π) = conj(B_jk)·w` holds exactly (coefficients equal,
+  phases opposite modulo one turn), followed by both monomials.
+* `full N q fov` — whether the request gives a full (uncropped) FFT pair, i.e. `Mo = M`.
+-/
 namespace HcipyVerif.Driver.C02
+open HcipyVerif.Proto HcipyVerif.Fft
 
 structure St where
   dummy : Unit := ()
 
+def showPSum (p : PSum) : String :=
+  match p.terms with
+  | [] => "0"
+  | [x] => s!"{showRat x.c}:{showRat x.t}:{showRat x.r}"
+  | _ => "multi"
+
+def adjointOk (dT w : Rat) (F B : PSum) : Bool :=
+  match F.terms, B.terms with
+  | [x], [y] => x.c * dT == y.c * w && fracPart (x.t + y.t) == 0 && x.r + y.r == 0
+  | [], [] => true
+  | _, _ => false
+
 def step (st : St) : List String → St × String
+  | ["adj", cfg, N, M, Mo, d, z, dT, s, w, j, k] =>
+    match parseNat? N, parseNat? M, parseNat? Mo, parseRat? d, parseRat? z, parseRat? dT,
+      parseRat? s, parseRat? w, parseNat? j, parseNat? k with
+    | some N, some M, some Mo, some d, some z, some dT, some s, some w, some j, some k =>
+      if cfg != "std" && cfg != "emu" then (st, "bad-op")
+      else if M = 0 || N > M || Mo > M || j ≥ N || k ≥ Mo then (st, "err value") else
+      let g : RCfg := { N := N, M := M, Mo := Mo, δ := d, z := z, dT := dT, s := s,
+                        w := PSum.ofRat w, emu := cfg == "emu" }
+      let F := fastForward PSum.turns PSum.rad g (PSum.impulse j) k
+      let B := fastBackward PSum.turns PSum.rad g (PSum.impulse k) j
+      (st, s!"ok {showBool (adjointOk dT w F B)} {showPSum F} {showPSum B}")
+    | _, _, _, _, _, _, _, _, _, _ => (st, "bad-op")
+  | ["full", N, q, fov] =>
+    match parseNat? N, parseRat? q, parseRat? fov with
+    | some N, some q, some fov =>
+      let M := paddedSize N q
+      (st, s!"ok {showBool (outSize M fov == M)} {M} {showRat (roundSlack (q * N))} {showRat (outSlack M fov)}")
+    | _, _, _ => (st, "bad-op")
   | _ => (st, "bad-op")
 
 end HcipyVerif.Driver.C02
